@@ -7,6 +7,13 @@ import findgen as FG
 from common import Run, corpus
 
 
+TARGETED = [("shallow3", "decoys", None), ("weakchiral4", "decoys", True), ("chiral5", "decoys", True), ("metal4", "decoys", None),
+            ("mirrorsym5", "shuffled", None), ("tri_sym3", "shuffled", None), ("planar_sym4", "shuffled", None), ("ch2f2", "shuffled", None),
+            ("axis_asym4", "antiparallel", None), ("pair_y", "antiparallel", None), ("asym4", "corners", None), ("bent3_y", "stretched", None),
+            ("collinear3", "corners", None), ("single", "mixed", None),
+            ("pair", "stretched-axis", None), ("axis_asym4", "stretched-axis", None), ("shallow3", "stretched-axis", None), ("asym4", "stretched-axis", None)]
+
+
 def py_out_problem(c, idx, mpos, q):
     """cheap float re-statement of C01 on one reported match (used to word the replay); exact decision is Coq's"""
     S = np.array(c["pos"], float)
@@ -47,6 +54,12 @@ def run_find_property(pid, tier, seed, replay, propfiles, flavors, ncases, rule,
         for name, cj in corpus(pid):
             cases.append((FG.case_from_json(cj["case"]), cj.get("seed", 0), "corpus:" + name))
         if not replay:
+            # situations that random pairing of pattern and flavour reaches only now and then are generated on every run
+            for ti, (pat, flavor, big) in enumerate(TARGETED):
+                for rep in range(2):
+                    c = FG.make_case(run.rng, 1000 + 17 * ti + 5 * rep, flavor=flavor, pattern=pat, big=big)
+                    if c is not None:
+                        cases.append((c, run.rng.randrange(1 << 30), flavor))
             k = 0
             tries = 0
             while len(cases) < ncases + (1 if replay else 0) and tries < 20 * ncases:
